@@ -864,11 +864,37 @@ psf_binheader_writef (SF_PRIVATE *psf, const char *format, ...)
 
 
 
+/* Make sure `bytes` more can be buffered behind header.indx. When the buffer may not grow any
+** further (the cap that protects the parsers), the part the parser has already consumed is dropped
+** from its front instead : the parsers only move forward, and a file with many small chunks in
+** front of the audio data is not a hostile file.
+*/
+static int
+header_make_room (SF_PRIVATE *psf, int bytes)
+{	sf_count_t pending ;
+
+	if (psf->header.indx + bytes < psf->header.len)
+		return SF_TRUE ;
+
+	if (psf_bump_header_allocation (psf, bytes) == 0)
+		return SF_TRUE ;
+
+	pending = psf->header.end - psf->header.indx ;
+	if (psf->header.indx > 0 && pending >= 0 && pending + bytes < psf->header.len)
+	{	memmove (psf->header.ptr, psf->header.ptr + psf->header.indx, pending) ;
+		psf->header.end = pending ;
+		psf->header.indx = 0 ;
+		return SF_TRUE ;
+		} ;
+
+	return SF_FALSE ;
+} /* header_make_room */
+
 static int
 header_read (SF_PRIVATE *psf, void *ptr, int bytes)
 {	int count = 0 ;
 
-	if (psf->header.indx + bytes >= psf->header.len && psf_bump_header_allocation (psf, bytes))
+	if (! header_make_room (psf, bytes))
 		return count ;
 
 	if (psf->header.indx + bytes > psf->header.end)
@@ -960,7 +986,7 @@ static int
 header_gets (SF_PRIVATE *psf, char *ptr, int bufsize)
 {	int		k ;
 
-	if (psf->header.indx + bufsize >= psf->header.len && psf_bump_header_allocation (psf, bufsize))
+	if (! header_make_room (psf, bufsize))
 		return 0 ;
 
 	for (k = 0 ; k < bufsize - 1 ; k++)
@@ -1005,7 +1031,7 @@ psf_binheader_readf (SF_PRIVATE *psf, char const *format, ...)
 	while ((c = *format++))
 	{
 		read_bytes = 0 ;
-		if (psf->header.indx + 16 >= psf->header.len && psf_bump_header_allocation (psf, 16))
+		if (! header_make_room (psf, 16))
 			break ;
 
 		switch (c)
@@ -1132,7 +1158,7 @@ psf_binheader_readf (SF_PRIVATE *psf, char const *format, ...)
 					count = va_arg (argptr, size_t) ;
 					memset (charptr, 0, count) ;
 
-					if (psf->header.indx + count >= psf->header.len && psf_bump_header_allocation (psf, count))
+					if (! header_make_room (psf, count))
 						break ;
 
 					read_bytes = header_gets (psf, charptr, count) ;
